@@ -241,7 +241,7 @@ func (c *Ctx) lockOrder() {
 			// closures handed to a callee run inside it
 			for _, a := range cs.Common().Args {
 				if g := engine.FuncValue(a); g != nil && acq[g] != nil && !seen[g] {
-					if sc := cs.Common().StaticCallee(); sc != nil && (sc.Name() == "GoAnnotated" || sc.Name() == "AfterFunc" || sc.Name() == "Go") {
+					if sc := cs.Common().StaticCallee(); sc != nil && (engine.ShortName(sc) == "GoAnnotated" || engine.ShortName(sc) == "AfterFunc" || engine.ShortName(sc) == "Go") {
 						continue
 					}
 					seen[g] = true
@@ -470,7 +470,7 @@ func wgName(cs engine.CallSite, w *types.Var) string {
 
 func isWaitGroupCall(cs engine.CallSite, name string) (*types.Var, bool) {
 	sc := cs.Common().StaticCallee()
-	if sc == nil || sc.Name() != name || engine.PkgPathOf(sc) != "sync" {
+	if sc == nil || engine.ShortName(sc) != name || engine.PkgPathOf(sc) != "sync" {
 		return nil, false
 	}
 	if rn := engine.RecvNamed(sc); rn == nil || rn.Obj().Name() != "WaitGroup" {
@@ -977,7 +977,7 @@ func (c *Ctx) stateConfinement() {
 	// mutable fields: stored outside the constructor
 	mutable := map[string]bool{}
 	for _, f := range c.funcsInPkg("internal/state") {
-		if topFn(f).Name() == "NewState" {
+		if c.isAnchor(topFn(f), "internal/state.NewState") {
 			continue
 		}
 		for _, b := range f.Blocks {
@@ -1148,7 +1148,7 @@ func (c *Ctx) stateConfinement() {
 				sc := cc.StaticCallee()
 				switch {
 				case sc != nil && len(sc.Params) > 0 && isStatePtr(sc.Params[0].Type()) && len(cc.Args) > 0 && aliasOf(cc.Args[0], u.val):
-					desc = "State." + sc.Name()
+					desc = "State." + engine.ShortName(sc)
 					tt := touches(sc, 0)
 					if len(tt) > 0 {
 						var ks []string
@@ -1156,7 +1156,7 @@ func (c *Ctx) stateConfinement() {
 							ks = append(ks, k)
 						}
 						sort.Strings(ks)
-						unsafe = "State." + sc.Name() + " touches " + strings.Join(ks, ",")
+						unsafe = "State." + engine.ShortName(sc) + " touches " + strings.Join(ks, ",")
 					}
 				case sc != nil && sc.Signature.Recv() == nil && strings.HasPrefix(engine.PkgPathOf(sc), "github.com/bradenaw/juniper"):
 					continue
@@ -1168,12 +1168,12 @@ func (c *Ctx) stateConfinement() {
 					if cc.IsInvoke() {
 						name = cc.Method.Name()
 					} else if sc != nil {
-						name = sc.Name()
+						name = engine.ShortName(sc)
 					} else {
 						name = "a function value"
 					}
 					desc = "passed to " + name
-					if sc != nil && (sc.Name() == "Values" || sc.Name() == "Keys") {
+					if sc != nil && (engine.ShortName(sc) == "Values" || engine.ShortName(sc) == "Keys") {
 						continue
 					}
 					unsafe = "the state is handed to " + name + ", which may touch any of its fields"
@@ -1293,7 +1293,7 @@ func ownStateGuard(in ssa.Instruction) bool {
 		fromCtx := func(v ssa.Value) bool {
 			return engine.AnyBackward(v, engine.FlowOpts{Loads: true}, func(x ssa.Value) bool {
 				if ex, ok := x.(*ssa.Extract); ok {
-					if call, ok := ex.Tuple.(*ssa.Call); ok && call.Call.StaticCallee() != nil && call.Call.StaticCallee().Name() == "GetStateIDFromContext" {
+					if call, ok := ex.Tuple.(*ssa.Call); ok && call.Call.StaticCallee() != nil && engine.ShortName(call.Call.StaticCallee()) == "GetStateIDFromContext" {
 						return true
 					}
 				}
@@ -1302,7 +1302,7 @@ func ownStateGuard(in ssa.Instruction) bool {
 						if al, ok := b.(*ssa.Alloc); ok {
 							for _, s := range engine.StoresTo(al) {
 								if ex, ok := s.Val.(*ssa.Extract); ok {
-									if call, ok := ex.Tuple.(*ssa.Call); ok && call.Call.StaticCallee() != nil && call.Call.StaticCallee().Name() == "GetStateIDFromContext" {
+									if call, ok := ex.Tuple.(*ssa.Call); ok && call.Call.StaticCallee() != nil && engine.ShortName(call.Call.StaticCallee()) == "GetStateIDFromContext" {
 										return true
 									}
 								}
@@ -1351,7 +1351,7 @@ func unsharedObject(v ssa.Value) bool {
 			return true
 		case *ssa.Call:
 			sc := t.Call.StaticCallee()
-			return sc != nil && sc.Name() == "Get" && engine.PkgPathOf(sc) == "sync" && engine.RecvNamed(sc) != nil && engine.RecvNamed(sc).Obj().Name() == "Pool"
+			return sc != nil && engine.ShortName(sc) == "Get" && engine.PkgPathOf(sc) == "sync" && engine.RecvNamed(sc) != nil && engine.RecvNamed(sc).Obj().Name() == "Pool"
 		default:
 			return false
 		}
